@@ -336,6 +336,8 @@ Inductive fixop :=
 | FDelete.
 
 Definition nl : str := [10].
+Definition is_nil (s : str) : bool := match s with [] => true | _ => false end.
+Definition ends_with_nl (s : str) : bool := match rev s with c :: _ => c =? 10 | [] => false end.
 
 (* autofix.go: NewAutofix *)
 Definition new_autofix (l : line) : fixrec := mkFix [] (ln_raw l) [] false.
@@ -391,7 +393,15 @@ Definition apply_fixop (md : mode) (text : str) (fx : fixrec) (op : fixop)
   | FInsertAbove t =>
     Ok (text, mkFix (fx_above fx ++ [t ++ nl]) (fx_texts fx) (fx_below fx) (fx_modified fx), true)
   | FInsertBelow t =>
-    Ok (text, mkFix (fx_above fx) (fx_texts fx) (fx_below fx ++ [t ++ nl]) (fx_modified fx), true)
+    (* an unterminated last line gets its newline first, once *)
+    let texts :=
+      match rev (fx_texts fx), fx_below fx with
+      | lst :: before, [] =>
+        if negb (is_nil lst) && negb (ends_with_nl lst) then rev ((lst ++ nl) :: before)
+        else fx_texts fx
+      | _, _ => fx_texts fx
+      end in
+    Ok (text, mkFix (fx_above fx) texts (fx_below fx ++ [t ++ nl]) (fx_modified fx), true)
   | FDelete =>
     Ok (text, mkFix (fx_above fx) (map (fun _ => []) (fx_texts fx)) (fx_below fx) (fx_modified fx),
         negb (Nat.eqb (length (fx_texts fx)) 0))
